@@ -145,7 +145,32 @@ ThenFails(r) ==
     \cup Cl(SameProj(OpResult(st, r.then.op), r.then.post) \/
             SameProj(DevOpResult(st, r.then.op), r.then.post), "UsableAfterFailureState")
     \cup Cl(AuditOK(r.then.post), "AuditAfterRecovery")
+\* What a second connection saw at the callbacks of the call (isolation): committed
+\* states only -- for add / ILI files the state before until the one commit, then the
+\* state after; for remove the states after 0, 1, 2, ... complete per-lexicon
+\* transactions, in that order.  "busy" views (SQLite refusing the reader) say nothing.
+SeenViews(r) == LET P(w) == w[3] = "seen" IN SelectSeq(r.views, P)
+SameView(v, o) == v.inst = o.inst /\ v.ilis = o.ilis /\ v.look = o.look /\ v.digests = o.digests
+                  /\ v.dangling = <<>>
+MinOf(S) == CHOOSE n \in S : \A m \in S : n <= m
+ViewsFails(r) ==
+  IF "views" \notin DOMAIN r THEN {} ELSE
+  LET vs == SeenViews(r)  st == ObsSt(r.pre) IN
+  IF r.op[1] = "remove" /\ RemoveOutcome(st, r.op[2]) = "ok"
+  THEN LET ms == Matched(st, r.op[2])
+           Idx(v) == {n \in 0..Len(ms) : RemoveSeq(st, ms, n).inst = v.inst}
+           Whole(v) == /\ v.ilis = r.pre.ilis /\ v.look = r.pre.look /\ v.dangling = <<>>
+                       /\ Rng(v.digests) = {d \in Rng(r.pre.digests) : d[1] \in Rng(v.inst)} IN
+         Cl(\A k \in DOMAIN vs : Idx(vs[k][4]) # {} /\ Whole(vs[k][4]), "ReaderSeesCommittedStatesOnly")
+         \cup Cl(\A j, k \in DOMAIN vs : (j < k /\ Idx(vs[j][4]) # {} /\ Idx(vs[k][4]) # {}) =>
+                    MinOf(Idx(vs[j][4])) <= MinOf(Idx(vs[k][4])), "ReaderSeesCommitsInOrder")
+  ELSE Cl(\A k \in DOMAIN vs : SameView(vs[k][4], r.pre) \/ SameView(vs[k][4], r.post),
+          "ReaderSeesCommittedStatesOnly")
+       \cup Cl(\A j, k \in DOMAIN vs : (j < k /\ SameView(vs[j][4], r.post)) => SameView(vs[k][4], r.post),
+               "ReaderSeesCommitsInOrder")
+       \cup Cl(r.ret # "ok" => \A k \in DOMAIN vs : SameView(vs[k][4], r.pre), "FailedCallNeverVisible")
 CommonFails(r) ==
+  ViewsFails(r) \cup
   Cl(AuditOK(r.post), "Audit") \cup Cl(ApiOK(r.post), "ApiLinks") \cup Cl(ApiIlisOK(r.post), "ApiIlis") \cup Cl(StructOK(r.post), "Structure")
   \cup Cl("inputs_unchanged" \in DOMAIN r => r.inputs_unchanged, "InputsUnchanged")
   \cup Cl("tmp_left" \in DOMAIN r => r.tmp_left = <<>>, "NoTemporaryFilesLeft")
